@@ -182,7 +182,7 @@ Definition sat2_id_ok (id : string) : Prop :=
 Definition sat2_ok (ntypes : nat) (s : sat2) : Prop :=
   sat2_id_ok (s2_id s) /\ List.length (s2_cells s) = ntypes /\ Forall cell_wf (s2_cells s).
 Definition epoch2_ok (century : Z) (ntypes : nat) (e : epoch2) : Prop :=
-  epoch_t_wf (e2_t e) /\ (ep_y (e2_t e) / 100 = century)%Z /\
+  epoch_t_wf (e2_t e) /\ (1980 <= ep_y (e2_t e) < 2080)%Z /\       (* the years a two-digit year can denote; [century] is unused *)
   match ep_clk (e2_t e) with None => True | Some c => fits_F 12 9 c end /\
   fits_int 3 (Z.of_nat (List.length (e2_sats e))) /\ e2_sats e <> [] /\ Forall (sat2_ok ntypes) (e2_sats e).
 Definition file2_ok (f : file2) : Prop :=
